@@ -80,7 +80,7 @@ package sqlx
 //@   opaque mapStructFieldsIntoSlice, ValidatePtr, Deref
 //@   loop 2 iteration-ensures [row-mapped-with-callers-strictness] calls(mapStructFieldsIntoSlice) == 1 && arg(mapStructFieldsIntoSlice, 2) == strict && arg(mapStructFieldsIntoSlice, 1) == columns
 //@   loop 2 iteration-ensures [row-scanned-into-mapped-destinations] ret(mapStructFieldsIntoSlice, 1) == nil && calls(scanner.Scan) == 1 && arg(scanner.Scan, 0) == ret(mapStructFieldsIntoSlice, 0) && before(mapStructFieldsIntoSlice, Scan)
-//@   ensures [mapping-error-returned] calls(mapStructFieldsIntoSlice) >= 1 && ret(mapStructFieldsIntoSlice, 1, 1) != nil ==> result == ret(mapStructFieldsIntoSlice, 1, 1)
+//@   ensures [mapping-error-returned] tail(calls(mapStructFieldsIntoSlice)) == 1 && tail(ret(mapStructFieldsIntoSlice, 1)) != nil ==> result == tail(ret(mapStructFieldsIntoSlice, 1))
 
 // ---------------- strictness of the query entry points (C11) and what the breaker is told (C01) ----------------
 // QueryRow/QueryRows map strictly (every destination field must be covered by a column), the Partial forms do
